@@ -219,7 +219,7 @@ func TestCheck(t *testing.T) {
 		kWS.Check(rt, c, nt, cl...)
 	})
 	if rec.Thorough() {
-		rec.Rapid(t, "sock", rec.N(0, 40), func(rt *rapid.T) {
+		rec.Rapid(t, "sock", rec.N(0, 200), func(rt *rapid.T) {
 			c := genSock(rt)
 			nt, cl := classifySock(c)
 			kSock.Check(rt, c, nt, cl...)
